@@ -1,8 +1,74 @@
 import Driver.Store2
+import NixModel.Pure.Handles
+open Lean
 
 namespace Driver.C02
 
-/-- C02 is decided on the structural (HDF5 graph) model: same driver for C02 C03 C04 C05 C12 C20 -/
-def main : IO Unit := Driver.Store2.main
+/-- C02 is decided on the structural (HDF5 graph) model — the two-file driver of `Driver.Store2`
+(with `noop` where the implementation closes and reopens the file) — plus the handle machine
+`Nix.Handles` (ops prefixed `h_`): `H5Group` handles on the children of one parent group. -/
+structure St where
+  store : Driver.Store2.St := {}
+  hs : Nix.Handles.St := {}
+  code : Nix.Handles.Code := Nix.Handles.Code.current
+  ents : Array Nat := #[]        -- entity ordinal → heap id
+  deriving Inhabited
+
+open Nix.Handles in
+def outJson (s : St) : Out → Json
+  | .done => ok Json.null
+  | .refused e => err e
+  | .entries l => ok (Json.arr (l.map fun kv =>
+      Json.arr #[Json.str kv.1, match s.ents.idxOf? kv.2 with
+        | some j => Json.num j
+        | none => Json.num (-1 : Int)]).toArray)
+  | .value v => ok (match v with | some x => Json.str x | none => Json.null)
+  | .handle i => ok (Json.num i)
+  | .obj k => ok (Json.num k)
+  | .bad => bad "no such handle"
+
+open Nix.Handles in
+def hstep (s : St) (op : Op) : St × Json :=
+  let (hs', out) := Nix.Handles.step s.code s.hs op
+  let s' := { s with hs := hs' }
+  match out with
+  | .obj k => ({ s' with ents := s'.ents.push k }, ok (Json.num s.ents.size))
+  | o => (s', outJson s' o)
+
+def natOf (j : Json) : Option Nat := (jInt? j).map Int.toNat
+
+open Nix.Handles in
+def step (s : St) (j : Json) : St × Json :=
+  match (jArr j).toList with
+  | [.str "h_reset", d, .str which] =>
+    let code := if which == "before" then Code.before else Code.current
+    ({ s with hs := { depth := (natOf d).getD 5 }, code := code, ents := #[] }, ok Json.null)
+  | [.str "h_open", .str name, .bool create] => hstep s (.openH name create)
+  | [.str "h_read", i] =>
+    match natOf i with | some n => hstep s (.read n) | none => (s, bad "index")
+  | [.str "h_get_attr", i, .str a] =>
+    match natOf i with | some n => hstep s (.getAttr n a) | none => (s, bad "index")
+  | [.str "h_link", i, .str key, t] =>
+    match natOf i, (natOf t).bind fun o => s.ents[o]? with
+    | some n, some tgt => hstep s (.createLink n key tgt)
+    | _, _ => (s, bad "args")
+  | [.str "h_del", i, .str key, .bool die] =>
+    match natOf i with | some n => hstep s (.delete n key die) | none => (s, bad "index")
+  | [.str "h_set_attr", i, .str a, v] =>
+    match natOf i with
+    | some n => hstep s (.setAttr n a (match v with | .str x => some x | _ => none))
+    | none => (s, bad "index")
+  | [.str "h_new"] => hstep s .newEntity
+  | [.str "h_plink", .str name, t] =>
+    match (natOf t).bind fun o => s.ents[o]? with
+    | some tgt => hstep s (.plink name tgt)
+    | none => (s, bad "target")
+  | [.str "h_punlink", .str name] => hstep s (.punlink name)
+  | [.str "h_truth", .str name] => (s, outJson s (.entries (truth s.hs name)))
+  | _ =>
+    let (st', out) := Driver.Store2.step s.store j
+    ({ s with store := st' }, out)
+
+def main : IO Unit := loop ({} : St) step
 
 end Driver.C02
